@@ -261,6 +261,9 @@ func (w *world) afterConvert(in *intent, ok bool, log string, pre, post *snap) {
 		if len(d) > 0 || len(storeDiff(pre, post)) > 0 {
 			w.rec.Violate("C11", "failed_conversion_changed_state", strings.Join(storeDiff(pre, post), ","), "failed %s changed state:%s", in.desc, fmtDiff(d))
 		}
+		if !cv.toToken {
+			w.convertBackMustSucceed(in, log, pre)
+		}
 		return
 	}
 	// which pair did it resolve to (as of before the tx)
@@ -351,6 +354,48 @@ func (w *world) afterConvert(in *intent, ok bool, log string, pre, post *snap) {
 	if cv.toToken {
 		w.outstanding = append(w.outstanding, outstanding{user: cv.sender.Label, recv: rn, contract: contract, denom: cv.denom, amount: cv.amount})
 	}
+}
+
+// convertBackMustSucceed (C12: whatever the registry went through, what was converted can be converted
+// back): a rejected conversion of tokens of a module-owned contract into one of the pair's denominations,
+// with the module and the pair enabled, the sender holding the tokens, the module holding the coins, the
+// receiver not blocked and the denomination transferable, has no legitimate reason to fail.
+func (w *world) convertBackMustSucceed(in *intent, log string, pre *snap) {
+	cv := in.conv
+	pair, found := w.pairByContractIn(pre, cv.contract)
+	if !found || !w.aggEnabled || pair.ContractOwner != aggregatetypes.OWNER_MODULE || cv.blocked || !cv.amount.IsPositive() {
+		return
+	}
+	if strings.Contains(log, "out of gas") {
+		return
+	}
+	contract := common.HexToAddress(pair.ERC20Address)
+	key := strings.ToLower(contract.Hex())
+	if en, known := w.pairEnabled[key]; (known && !en) || w.suicided[key] {
+		return
+	}
+	listed := false
+	for _, d := range pair.Denoms {
+		listed = listed || d == cv.denom
+	}
+	if en, set := w.sendEnabled[cv.denom]; !listed || (set && !en) {
+		return
+	}
+	x := cv.amount.BigInt()
+	have, escrow := pre.bal["erc20|"+contract.Hex()+"|"+cv.sender.Label], pre.bal["bank|mod:"+aggregatetypes.ModuleName+"|"+cv.denom]
+	if have == nil || have.Cmp(x) < 0 || escrow == nil || escrow.Cmp(x) < 0 {
+		return
+	}
+	w.rec.Violate("C12", "convert_back_rejected", fmt.Sprintf("denom_%d_of_%d", indexOf(pair.Denoms, cv.denom)+1, len(pair.Denoms)), "%s was rejected (%s) although the pair lists the denomination, module and pair are enabled, the sender holds %s tokens and the module %s coins", in.desc, firstLine(log), have, escrow)
+}
+
+func indexOf(l []string, s string) int {
+	for i, x := range l {
+		if x == s {
+			return i
+		}
+	}
+	return -1
 }
 
 func ownerName(p aggregatetypes.TokenPair) string {
